@@ -478,8 +478,8 @@ Print Assumptions C17_check_ok_sound.
    width (lin_level_list) at the LOWEST level of the window with at most Max such multiples, minor the
    same one level below, and no ticks exactly when no level of the window fits.  lin_level_spec - with c
    the length of that list: CountTicks(l) = c up to 10^6 ticks (within 2 + 1e-9 c of min(c, maxInt) beyond:
-   the count is formed in float64), and TicksAtLevel(l) has status 0, c ticks, each within tolerance of the
-   list whenever c <= 10^6 (status 3 = not called by the harness: only where c > 10^4).
+   the count is formed in float64), and TicksAtLevel(l) has status 0 and exactly c ticks, each within
+   tolerance of the list (or status 3 = not called by the harness, no ticks: only where c > 1000).
    lin_nice_spec - the observed new ends are finite and within tolerance of x, y with: x <= smn, smx <= y
    (never shrinks; [smn, smx] the ordered domain, a degenerate one widened by 1/2), at THE lowest level
    whose rounded-out count is at most Max (lin_nice_level) each end moved by less than one spacing onto a
@@ -574,8 +574,8 @@ Theorem C17_check_meaning_scales :
     let c := Z.of_nat (length L) in
     ((c <= 1000000)%Z -> lv_count lv = c) /\
     ((1000000 < c)%Z -> (Z.abs (lv_count lv - Z.min c MAXINT) <= 2 + c / 1000000000)%Z) /\
-    ((lv_st lv = 0%Z /\ (c <= 1000000)%Z /\ obs_close tolv L (lv_ticks lv) /\ lv_count lv = Z.of_nat (length (lv_ticks lv)))
-    \/ (lv_st lv = 3%Z /\ (10000 < c)%Z /\ lv_ticks lv = [])))%Q) /\
+    ((lv_st lv = 0%Z /\ obs_close tolv L (lv_ticks lv) /\ Z.of_nat (length (lv_ticks lv)) = c)
+    \/ (lv_st lv = 3%Z /\ (1000 < c)%Z /\ lv_ticks lv = [])))%Q) /\
   (forall (tolv : Q -> Q) (base eb : Z) (o : tickopts) (mn mx : Q) (st : Z) (a b : xreal), lin_nice_spec tolv base eb o mn mx st a b <->
    (st = 0%Z /\ exists ao bo x y, a = XFin ao /\ b = XFin bo /\ Qabs (ao - x) <= tolv x /\ Qabs (bo - y) <= tolv y /\
     let smn := fst (lin_start mn mx) in let smx := snd (lin_start mn mx) in
@@ -710,8 +710,8 @@ Print Assumptions C17_check_meaning_scales.
    (near_round) either way ({n-1, n} resp. {n, n+1}).  Outside that window the admissible set is the
    singleton exact outcome: a per-level observation, Ticks(o) with its minor ticks, and Nice(o) that pass
    the admissible comparison pass the exact one when no decision is inside the window - so a borderline
-   verdict of these groups never arises there, and a borderline per-level group names a level with a
-   decision inside the window.  For a whole Linear case: judge_linear returns code 1 ONLY IF a decision -
+   verdict of these groups never arises there (per level: for an observed count that is an int64 value), and
+   a borderline per-level group names a level with a decision inside the window.  For a whole Linear case: judge_linear returns code 1 ONLY IF a decision -
    of Ticks on the ordered domain, of a per-level observation, of Nice on the start domain, of Ticks or
    Nice on the observed new domain - is inside the window.  Log: the admissible set takes each undecided (N_border) slack decision of
    log_exps either way and treats candidate minor ticks within 1e-12 of a domain end as optional; when no
@@ -721,9 +721,9 @@ Print Assumptions C17_check_meaning_scales.
    new domain is undecided or minor ticks are involved (Ticks(o) at a level <= 0, a recorded level below 0,
    Ticks after Nice at a level below 0). *)
 Theorem C17_check_borderline_window :
-  (forall base eb mn mx tolv lv, lin_amb_level base eb mn mx false (lv_level lv) = false ->
+  (forall base eb mn mx tolv lv, lin_amb_level base eb mn mx false (lv_level lv) = false -> (lv_count lv <= MAXINT)%Z ->
      lin_level_adm base eb mn mx tolv lv = true -> lin_level_exact base eb mn mx tolv lv = true) /\
-  (forall base eb mn mx tolv levels,
+  (forall base eb mn mx tolv levels, (forall lv, In lv levels -> (lv_count lv <= MAXINT)%Z) ->
      forallb (lin_level_exact base eb mn mx tolv) levels = false ->
      forallb (fun lv => lin_level_exact base eb mn mx tolv lv || lin_level_adm base eb mn mx tolv lv) levels = true ->
      exists lv, In lv levels /\ lin_level_exact base eb mn mx tolv lv = false /\ lin_level_adm base eb mn mx tolv lv = true /\
@@ -757,6 +757,7 @@ Theorem C17_check_borderline_window :
      let base := sc_base c in let mn := sc_mn c in let mx := sc_mx c in
      ~ ((forall l, lin_amb_level base eb (fst (lin_order mn mx)) (snd (lin_order mn mx)) false l = false) /\
         (forall l, lin_amb_level base eb mn mx false l = false) /\
+        (forall lv, In lv (so_levels (sc_ob c)) -> (lv_count lv <= MAXINT)%Z) /\
         (forall l, lin_amb_level base eb (fst (lin_start mn mx)) (snd (lin_start mn mx)) true l = false) /\
         (forall l, lin_amb_level base eb (fst (lin_order ao bo)) (snd (lin_order ao bo)) false l = false) /\
         (forall l, lin_amb_level base eb (fst (lin_start ao bo)) (snd (lin_start ao bo)) true l = false))) /\
